@@ -287,15 +287,13 @@ def judge : List String → String
     | some b, some a => if a == b then "ok" else "viol cache-changed-without-a-synchronisation"
     | _, _ => "bad-op"
   | "label" :: toks =>
-    -- is the fromCache flag truthful?  an answer that is the cached copy (C), or "no such user" for a
-    -- user the primary has (target n), must carry fromCache = 1; the primary's copy (P) fromCache = 0
+    -- is the fromCache flag truthful?  the answer was compared with what each database holds: the
+    -- cache's row (C), or "no such user" when only the cache lacks the row (N), must carry fromCache = 1;
+    -- the primary's row (P) fromCache = 0; identical rows (S), absent in both (Z) and errors carry no information
     let bad := toks.filter fun t =>
       match t.splitOn ":" with
-      | [pt, r] =>
-        let tgt := (pt.splitOn "/").getLast?.getD ""
-        if r == "C1" || r == "P0" || r == "err0" || r == "err1" then false
-        else if r == "none1" && tgt == "n" then false
-        else true
+      | [_, r] =>
+        !(["C1", "P0", "N1", "S0", "S1", "Z0", "Z1", "err0", "err1"].contains r)
       | _ => true
     if bad.isEmpty then "ok" else s!"viol cached-data-not-labelled-fromCache {" ".intercalate bad}"
   | "flap" :: toks =>
